@@ -61,6 +61,7 @@ func main() {
 		mapOrder  = flag.Bool("maporder", false, "explore map iteration orders")
 		altMs     = flag.Int("alt-ms", 1000, "per-query timeout of the incremental session of the alternate solver")
 		gcPct     = flag.Int("gc-percent", 200, "GOGC of the engine process")
+		noSlice   = flag.Bool("no-slice", false, "send the whole path condition with hard queries")
 		keepGlob  = flag.Bool("keep-globals", false, "do not reset package-level state between paths")
 		noAltSess = flag.Bool("no-alt-session", false, "hard-arithmetic queries go straight to the one-shot portfolio")
 	)
@@ -218,7 +219,7 @@ func main() {
 		c := &interp.Config{
 			Workers: *workers, TimeoutMs: *timeoutMs, MaxSteps: *maxSteps, MaxDepth: *maxDepth, MaxAlloc: *maxAlloc,
 			MaxPaths: *maxPaths, MaxFailures: *maxFail, Solver: *solver, AltSolver: *alt, Verbose: *verbose, SolverLog: *slog,
-			Concrete: conc, MapOrderNondet: *mapOrder, OneShotMs: *oneShotMs, OneShotSolvers: strings.Split(*oneShot, ","), DumpDir: *dumpDir, Tier: *tier, Progress: *progress, NoWitness: *noWitness, AltMs: *altMs, NoAltSession: *noAltSess, KeepGlobals: *keepGlob,
+			Concrete: conc, MapOrderNondet: *mapOrder, OneShotMs: *oneShotMs, OneShotSolvers: strings.Split(*oneShot, ","), DumpDir: *dumpDir, Tier: *tier, Progress: *progress, NoWitness: *noWitness, AltMs: *altMs, NoAltSession: *noAltSess, KeepGlobals: *keepGlob, NoSlice: *noSlice,
 		}
 		if *deadline > 0 {
 			c.Deadline = time.Now().Add(time.Duration(*deadline) * time.Second)
